@@ -616,9 +616,7 @@ class Ctx:
         return False, "unrecognised condition %s" % show(t)[:80]
 
     def operand_type(self, term):
-        t = strip(term)
-        ty = self.sy.bin_type(t)
-        return ty
+        return self.sy.bin_type(term)
 
     def no_overflow(self, bb, op, a, b):
         ty = self.operand_type(a) or self.operand_type(b)
@@ -654,6 +652,11 @@ def collect(ctx, res=None):
             continue
         t = blk["t"]
         if t["k"] == "assert":
+            if t["mk"].startswith(("other:MisalignedPointerDereference", "other:NullPointerDereference")) and \
+                    any(short(cname(c)) == "Box::<T>::new_uninit" for _, c in body.calls()):
+                # debug-build UB checks rustc inserts for raw-pointer derefs inside std macro expansions (vec![..]:
+                # the pointer is a fresh Box allocation); not present in release builds, cannot fail for Box pointers
+                continue
             o = Ob(body.path, bb, "assert", t["mk"], body.where(bb))
             o.term = an.terms.operand(t["cond"])
             o.expected = t["expected"]
@@ -804,6 +807,20 @@ def rule_unwrap(ctx, o):
                     from . import invariants
                     if invariants.conv_ok(ctx.prog, bty["p"], f[2], callee_ws):
                         return True, "type invariant: every constructor of %s checked %s(field) is Ok" % (bty["p"].split("::")[-1], callee_ws.split("::")[-3] if "::" in callee_ws else callee_ws)
+        if callee_ws and len(inner_args) == 1:
+            from . import audited
+            ok_, note_ = audited.some_unless_empty(ctx, o)
+            if ok_:
+                ctx.used_audited.setdefault("some-unless-empty", set()).add(note_)
+                return True, "some-unless-empty: " + note_
+        if callee_ws and len(inner_args) == 2:
+            from . import audited
+            ok_, note_ = audited.member_lookup(ctx, o)
+            if ok_:
+                ctx.used_audited.setdefault("member-lookup", set()).add(note_)
+                return True, "member-lookup: " + note_
+            if note_:
+                return False, note_
         if a[1] in ctx.prog.bodies:
             return conv_accepts(ctx, o.bb, a[1], inner_args[0]) if len(inner_args) == 1 else (False, "workspace call result unwrapped")
         if s == "<impl [T]>::last" or s == "<impl [T]>::first":
@@ -1007,8 +1024,8 @@ def rule_sum(ctx, o):
     rty = ga[-1] if ga else None
     rng = ty_range(rty)
     if rng is None:
-        if rty is not None and rty.get("k") == "float":
-            return True, "float sum"
+        if rty is not None and rty.get("k") in ("float", "adt"):
+            return True, "non-integer sum (float / uom quantity): no overflow check"
         return False, "sum result type unknown"
     call = ("call", cname(t), tuple(ctx.an.terms.operand(a) for a in t["args"]), o.bb)
     p = ctx.sy.poly(call)
